@@ -987,7 +987,51 @@ def non_normal_obj(rng):
             rng.choice([[], [["A", "1"]], [["a", "1"]]]))
 
 
+# ----------------------------------------------------------------------------------------------
+# Traceability: which implementation objects are mirrored by hand / regenerated / only exercised by the oracle
+# ----------------------------------------------------------------------------------------------
+_AP = "webob.acceptparse:"
+MODELLED = [_AP + x for x in (
+    "AcceptOffer",                                          # offer := OStr | OObj
+    "Accept.parse_offer",                                   # parse_offer_str / parse_offer
+    "Accept.media_type_compiled_re",                        # span/params_loop/qs_body: hand scanner of this pattern
+    "Accept.parameters_compiled_re",                        # params_loop (findall of the parameters)
+    "Accept._parse_media_type_params",                      # unquote_param over the raw parameters
+    "Accept._process_quoted_string_token",                  # drop_lone_bs / replace_bsbs / process_quoted_string_token
+    "Accept._parse_and_normalize_offers",                   # parse_and_normalize
+    "AcceptValidHeader.acceptable_offers",                  # lower_range(s), specificity, range_step, offer_step, accept_offers
+    "AcceptValidHeader.accept_html",                        # accept_html
+    "_AcceptInvalidOrNoHeader.acceptable_offers",           # nohdr_offers
+    "AcceptCharsetValidHeader.acceptable_offers",           # hdr_step, offer_q false, simple_offers false
+    "AcceptEncodingValidHeader.acceptable_offers",          # hdr_step, offer_q true, simple_offers true
+)]
+REGENERATED = [_AP + x for x in (
+    "tchar_re", "OWS_re", "Accept.qdtext_re", "Accept.quoted_pair_re",      # Gen/C04_tables.v character classes
+    "AcceptValidHeader.accept_html", "_AcceptInvalidOrNoHeader.accept_html",  # Gen/C04_tables.v literal offer lists (AST)
+    "Accept.media_type_compiled_re", "token_compiled_re",                    # Gen/C03_regexes.v (via c03.gen)
+)]
+ORACLE_ONLY = [_AP + x for x in (
+    "create_accept_header", "create_accept_charset_header", "create_accept_encoding_header",
+    "Accept.parse", "AcceptCharset.parse", "AcceptEncoding.parse",           # header text -> .parsed (property C03)
+    "AcceptValidHeader.__init__", "AcceptCharsetValidHeader.__init__", "AcceptEncodingValidHeader.__init__",
+    "AcceptValidHeader.accepts_html", "_AcceptInvalidOrNoHeader.accept_html", "_AcceptInvalidOrNoHeader.accepts_html",
+    "_AcceptCharsetInvalidOrNoHeader.acceptable_offers", "_AcceptEncodingInvalidOrNoHeader.acceptable_offers",
+    # read-only calls interleaved in the histories (must not disturb the object or later answers)
+    "AcceptValidHeader.best_match", "AcceptValidHeader.quality", "AcceptValidHeader.__contains__",
+    "AcceptValidHeader.__iter__", "AcceptValidHeader.__str__", "AcceptValidHeader.copy",
+    "_AcceptInvalidOrNoHeader.best_match", "_AcceptInvalidOrNoHeader.quality", "_AcceptInvalidOrNoHeader.__contains__",
+    "AcceptCharsetValidHeader.best_match", "AcceptCharsetValidHeader.quality", "AcceptCharsetValidHeader.__contains__",
+    "AcceptCharsetValidHeader.__iter__", "AcceptCharsetValidHeader.__str__", "AcceptCharsetValidHeader.copy",
+    "AcceptEncodingValidHeader.best_match", "AcceptEncodingValidHeader.quality", "AcceptEncodingValidHeader.__contains__",
+    "AcceptEncodingValidHeader.__iter__", "AcceptEncodingValidHeader.__str__", "AcceptEncodingValidHeader.copy",
+)] + ["webob.acceptparse:accept_property", "webob.request:BaseRequest.accept",
+      "webob.exc:WSGIHTTPException.generate_response"]
+
+
 def run(ctx):
+    ctx.modelled(MODELLED)
+    ctx.extra["regenerated_from_source"] = REGENERATED
+    ctx.extra["oracle_only"] = ORACLE_ONLY
     from webob.acceptparse import (create_accept_header, create_accept_charset_header, create_accept_encoding_header,
                                    AcceptValidHeader)
     for problem in gen(ctx):
